@@ -62,11 +62,32 @@ fn c02_pair_drop(seed: u64) -> Scenario {
     let b = a + 1 + k;
     g::c02_placement(s ^ 0x5A5A, &[a, b])
 }
+fn ps_exact(seed: u64) -> Scenario {
+    g::peer_sender(seed, "peer_sender_exact", true)
+}
+fn ps_hostile(seed: u64) -> Scenario {
+    g::peer_sender(seed, "peer_sender_hostile", false)
+}
+fn pr_generic(seed: u64) -> Scenario {
+    g::peer_receiver(seed, "peer_receiver", 0)
+}
+fn pr_nosignal(seed: u64) -> Scenario {
+    g::peer_receiver(seed, "peer_receiver_no_loss_signal", 1)
+}
+fn pr_retx(seed: u64) -> Scenario {
+    g::peer_receiver(seed, "peer_receiver_retx", 2)
+}
+fn pr_nagle(seed: u64) -> Scenario {
+    g::peer_receiver(seed, "peer_receiver_nagle", 3)
+}
+fn pr_buffer(seed: u64) -> Scenario {
+    g::peer_receiver(seed, "peer_receiver_buffer", 4)
+}
 fn c15_extremes(seed: u64) -> Scenario {
     g::extremes(seed, "c15_extremes")
 }
 
-pub const ALL: &[&str] = &["C01", "C02", "C03", "C08", "C11", "C14", "C15", "C16"];
+pub const ALL: &[&str] = &["C01", "C02", "C03", "C04", "C07", "C08", "C11", "C14", "C15", "C16", "C17"];
 
 pub fn families(property: &str) -> Vec<Family> {
     match property {
@@ -79,10 +100,17 @@ pub fn families(property: &str) -> Vec<Family> {
             Family { fault_free: true, ..fam("c02_prompt", g::c02_prompt, 25_000, 500_000) },
         ],
         "C03" => vec![fam("c03_termination", g::c03, 25_000, 600_000)],
+        "C04" => vec![Family { fault_free: true, ..fam("peer_sender_exact", ps_exact, 20_000, 500_000) }, Family { fault_free: true, ..fam("peer_sender_hostile", ps_hostile, 20_000, 500_000) }],
+        "C07" => vec![Family { fault_free: true, ..fam("peer_sender_exact", ps_exact, 40_000, 1_000_000) }],
         "C08" => vec![fam("c08_cycles", g::c08_cycles, 8_000, 200_000)],
         "C11" => vec![fam("c11_corrupt", g::c11_corrupt, 20_000, 500_000), fam("c11_unknown_ext", g::c11_unknown_ext, 10_000, 300_000), fam("c01_duplex", c01_duplex, 10_000, 200_000)],
         "C14" => vec![fam("c14_blackhole", g::c14_blackhole, 15_000, 400_000), fam("c14_converge", g::c14_converge, 600, 20_000), fam("c01_duplex", c01_duplex, 10_000, 200_000)],
         "C15" | "C16" => vec![fam("c01_duplex", c01_duplex, 20_000, 500_000), fam("c15_extremes", c15_extremes, 15_000, 400_000), fam("c14_blackhole", g::c14_blackhole, 5_000, 100_000)],
+        "C17" => vec![
+            Family { fault_free: true, ..fam("c17_teardown", g::c17_teardown, 30_000, 800_000) },
+            Family { fault_free: true, ..fam("peer_sender_hostile", ps_hostile, 8_000, 200_000) },
+            Family { fault_free: true, ..fam("peer_receiver", pr_generic, 8_000, 200_000) },
+        ],
         _ => vec![],
     }
 }
@@ -135,10 +163,13 @@ pub fn oracle(property: &str) -> OracleFn {
         "C01" => oracles::c01::check,
         "C02" => oracles::c02::check,
         "C03" => oracles::c03::check,
+        "C04" => oracles::c04::check,
+        "C07" => oracles::c07::check,
         "C08" => oracles::c08::check,
         "C11" => c11_oracle,
         "C14" => c14_oracle,
         "C15" => oracles::c15::check,
+        "C17" => oracles::c17::check,
         "C16" => oracles::c16::check,
         _ => panic!("no oracle for {}", property),
     }
@@ -149,9 +180,12 @@ pub fn expected_probes(property: &str) -> Vec<&'static str> {
         "C01" => vec!["data_retransmissions", "duplicate_deliveries", "polls_with_out_of_order_data", "tx_ring_grew", "seq_wrapped", "mss_changed"],
         "C02" => vec!["drops_fired", "sender_saw_zero_window_with_data", "window_update_dropped", "idle_writes", "idle_shutdowns", "flushes"],
         "C03" => vec!["abort_landed_with_data_or_fin_outstanding", "flush_or_shutdown_ok_claims", "eof_observed", "read_error_observed", "shutdown_error_observed", "fin_lost"],
+        "C04" => vec!["endpoint_emissions_checked", "sack_emitted", "out_of_order_held", "window_below_buffer", "fin_delivered_in_sequence"],
+        "C07" => vec!["delayed_acks", "immediate_acks", "zero_window_reached"],
         "C08" => vec!["connection_tasks_created", "letgo_judged", "closing_packet_lost", "cancel_or_kill", "task_failed_with_error", "too_many_active_connections_seen"],
         "C11" => vec!["emitted_datagrams_checked", "emitted_with_extension", "verdicts_accept_corrupted", "verdicts_reject_corrupted", "unknown_extension_delivered"],
         "C14" => vec!["probes_acked", "probes_failed_and_resegmented", "converged_transfers"],
+        "C17" => vec!["state_x_packet_pairs", "peer_fin_in_sequence", "peer_fin_out_of_sequence", "reset_delivered", "own_fin_sent", "own_fin_retransmitted", "synack_retries_exhausted"],
         "C15" => vec!["cc_rto_events", "cc_recovery_entries", "cc_mss_changes", "cc_slow_start_acks", "cc_congestion_avoidance_acks"],
         "C16" => vec!["rto_samples", "rto_timeouts", "rto_backoff_chain_ge_3", "rto_reached_60s_cap", "rtt_sample_zero", "rtt_sample_gt_60s"],
         _ => vec![],
@@ -164,9 +198,12 @@ pub fn rule(property: &str) -> String {
         "C01" => "relevance probe: at least one data retransmission or one end-of-poll snapshot with out-of-order data held, and at least one byte read.",
         "C02" => "relevance probe: (a) at least one budgeted drop fired; (b) at least one write or shutdown on an idle connection.",
         "C03" => "relevance probe: a termination fault (cut, kill, RESET, cancel) landed while data or a FIN was outstanding, or a FIN was lost.",
+        "C04" => "relevance probe: the endpoint held at least one packet out of order when it emitted a datagram (scripted arrival orders are the 'faults' of this family).",
+        "C07" => "relevance probe: at least one delayed and one immediate acknowledgement were emitted (scripted arrival timings are the 'faults' of this family).",
         "C08" => "relevance probe: at least one closing packet (FIN/RESET) was lost and at least one let-go connection was judged against its bound.",
         "C11" => "relevance probe: at least one corrupted datagram reached a real socket's parser (verdict recorded) and at least one emitted datagram was checked.",
         "C14" => "relevance probe: at least one MTU probe was acknowledged and at least one failed and was re-segmented.",
+        "C17" => "relevance probe: at least 4 distinct (connection state, delivered packet type) pairs were exercised in the run (scripted packet sequences and omissions are the 'faults' of this family).",
         "C15" => "relevance probe: at least one timeout, recovery entry or MSS change reached the congestion controller of a running connection.",
         "C16" => "relevance probe: the estimator of a running connection saw at least one sample and one timeout.",
         _ => "",
